@@ -386,7 +386,7 @@ class Check:
 
     # ---- verdicts
     def violation(self, key, desc, replay_obj):
-        d = os.path.join(ROOT, "replays", self.prop)
+        d = os.path.join(os.environ.get("VERIF_REPLAY_DIR", os.path.join(ROOT, "replays")), self.prop)
         os.makedirs(d, exist_ok=True)
         h = hashlib.sha1((key + json.dumps(replay_obj, sort_keys=True, default=str)).encode()).hexdigest()[:10]
         path = os.path.join(d, "%s_%s.json" % (re.sub(r"[^\w.=-]", "_", key)[:80], h))
@@ -418,8 +418,9 @@ class Check:
         self.cov["known_findings_seen"] = {k: v[1] for k, v in seen_known.items()}
         if not self.cov["samples"]:
             self.cov["samples"] = [{"note": "no sample recorded"}]
-        os.makedirs(os.path.join(ROOT, "evidence"), exist_ok=True)
-        with open(os.path.join(ROOT, "evidence", self.prop + ".json"), "w") as fh:
+        evdir = os.environ.get("VERIF_EVIDENCE_DIR", os.path.join(ROOT, "evidence"))
+        os.makedirs(evdir, exist_ok=True)
+        with open(os.path.join(evdir, self.prop + ".json"), "w") as fh:
             json.dump(ev, fh, indent=1, default=str)
         print("[%s] %s tier=%s seed=%d states=%d transitions=%d traces=%d evaluations=%d wall=%.1fs violations=%d known=%d" % (
             self.prop, "HELD" if not new else "VIOLATED", self.tier, self.seed, self.cov["states"], self.cov["transitions"],
